@@ -66,6 +66,15 @@ CHECKS = {
             "LoadDeviceConfigs + FindConfig run in them, results judged by TLC (spec/CaseTrace.tla)",
             "trusted: TLC, the marker (defaults.octave) identifying the chosen file. Unreadable directories cannot be produced as root.",
             "quick: all 256 presence combinations x 4 device types + seeded junk/missing-directory cases; thorough: full product with 6 junk kinds and 7 missing-directory sets (43k trees)."),
+    "C15": ("model_checking", "DESIGN.md 5/C15",
+            "TLA+ spec of the fan-out (spec/FanOut.tla: runner, spawn, despawn, consumers, drain; both the single-mutex design found and "
+            "the two-mutex design in the tree) model-checked exhaustively by TLC incl. liveness under the fairness the code provides; "
+            "operation histories of the real DynamicFanOut and relay recorded by an orchestrator and judged by TLC (spec/FanOutHist.tla)",
+            "trusted: TLC; logical call/return order logged by the orchestrator; 'never completes' = not returned 2 s after the scenario "
+            "(goroutine dump attached). Lock acquisitions and individual sends are unlogged internal steps.",
+            "Design: all interleavings of runner, 2-3 consumers (reading / stopped), spawn and despawn at every point, 2-4 messages, "
+            "capacity 1: order, exactly-once, no send on closed channel, delivered-while-connected, despawn completes. Code: the TLC "
+            "lasso forced on the real fan-out in several shapes, seeded random life-cycle histories, relay with concurrent emitters."),
     "C20": ("model_checking", "DESIGN.md 5/C20",
             "TLA+ spec of grouping and type rule (spec/Discovery.tla); the real input.Normalize run on every sequence of synthetic "
             "handlers (every multiset in every order), each call judged by TLC (spec/CaseTrace.tla)",
@@ -100,7 +109,7 @@ def main():
              "serves_properties": [i for i in ids if i in CHECKS and i in ("C01", "C02", "C03", "C04", "C05", "C06", "C07", "C08", "C13", "C14")],
              "kind_free_text": "TLC exhaustive model checking + tours + trace validation of the per-device engine"},
             {"name": "case-oracle", "path": "spec/CaseTrace.tla spec/NoteNames.tla spec/Loader.tla spec/Discovery.tla spec/ConfigFile.tla",
-             "serves_properties": [i for i in ids if i in CHECKS and i in ("C09", "C10", "C11", "C12", "C20")],
+             "serves_properties": [i for i in ids if i in CHECKS and i in ("C09", "C10", "C11", "C12", "C15", "C20")],
              "kind_free_text": "specification as enumerated oracle: the real function is run on generated cases, TLC judges every logged case"},
         ],
         "checks": [],
